@@ -16,13 +16,116 @@ import (
 	"testing"
 
 	"github.com/bbva/qed/protocol"
+	"github.com/bbva/qed/verifx/cx"
 	"github.com/bbva/qed/verifx/ev"
 	"github.com/bbva/qed/verifx/fx"
 	"github.com/bbva/qed/verifx/nx"
 )
 
+// ---------------------------------------------------------------- real clusters
+//
+// EVERY scenario over add(1), add(2), stop(a follower), start(it again), raft snapshot on the leader,
+// leadership transfer up to a depth runs on a REAL 3-node cluster (real raft, real transport, RocksDB)
+// in a child process. At the end every replica must have caught up and be in the same state, and every
+// proof every replica serves must verify against the snapshots the leader acknowledged.
+
+func clusterScenarios(depth int, trailing []uint64, bulks bool) []cx.Scenario {
+	var out []cx.Scenario
+	var gen func(cur []cx.Event, adds int, down bool, stops, snaps, transfers int)
+	gen = func(cur []cx.Event, adds int, down bool, stops, snaps, transfers int) {
+		if len(cur) > 0 && adds > 0 && (stops > 0 || snaps > 0 || transfers > 0) {
+			for _, t := range trailing {
+				if t == 0 && snaps == 0 {
+					continue // without a snapshot the compaction setting makes no difference
+				}
+				out = append(out, cx.Scenario{Events: append([]cx.Event{}, cur...), TrailingLogs: t})
+			}
+		}
+		if len(cur) == depth {
+			return
+		}
+		if adds < 3 {
+			gen(append(cur, cx.Event{Kind: "add", K: 1}), adds+1, down, stops, snaps, transfers)
+			if bulks {
+				gen(append(cur, cx.Event{Kind: "add", K: 2}), adds+1, down, stops, snaps, transfers)
+			}
+		}
+		if !down && stops < 1 {
+			gen(append(cur, cx.Event{Kind: "stop"}), adds, true, stops+1, snaps, transfers)
+		}
+		if down {
+			gen(append(cur, cx.Event{Kind: "start"}), adds, false, stops, snaps, transfers)
+		}
+		if snaps < 1 && adds > 0 {
+			gen(append(cur, cx.Event{Kind: "snapshot"}), adds, down, stops, snaps+1, transfers)
+		}
+		if transfers < 1 && !down && adds > 0 {
+			gen(append(cur, cx.Event{Kind: "transfer"}), adds, down, stops, snaps, transfers+1)
+		}
+	}
+	gen(nil, 0, false, 0, 0, 0)
+	return out
+}
+
+func realClusters(r *ev.Run, depth int) {
+	scs := clusterScenarios(depth, []uint64{10240, 0}, r.Thorough())
+	r.Bound("real_cluster_scenarios", len(scs))
+	base := os.Getenv("VERIF_SCRATCH_DIR")
+	ev.ParallelFor(len(scs), 8, func(i int) {
+		if !r.Mine(i) {
+			return
+		}
+		if r.OutOfTime() {
+			r.Capped("time budget reached during the real-cluster scenarios")
+			return
+		}
+		sc := scs[i]
+		det := map[string]interface{}{"scenario": cx.PathString(sc.Events), "trailingLogs": sc.TrailingLogs, "events": sc.Events}
+		res, bad := cx.Run(filepath.Join(base, fmt.Sprintf("cl%d", i)), sc)
+		r.Eval(1)
+		if bad != "" {
+			r.Violation("[C06] real cluster: "+bad, det)
+			return
+		}
+		if res.Error != "" {
+			// the scenario could not be driven (e.g. no leader in time on a loaded machine): not a verdict
+			r.Outcome("real cluster undriven: " + res.Error)
+			r.Extra("real_cluster_undriven", 1)
+			return
+		}
+		seen := map[string]bool{}
+		for _, p := range res.Problems {
+			if !seen[p] {
+				seen[p] = true
+				r.Violation("[C06] real cluster: "+p, det)
+			}
+		}
+		var ref *cx.NodeResult
+		for k := range res.Nodes {
+			n := &res.Nodes[k]
+			if !n.Up {
+				continue
+			}
+			if ref == nil {
+				ref = n
+				continue
+			}
+			if n.Version != ref.Version || n.FsmIndex != ref.FsmIndex {
+				r.Violation("[C06] real cluster: replicas that applied the same log report different versions", det)
+			} else if n.Tables != ref.Tables {
+				r.Violation("[C06] real cluster: replicas that applied the same log hold different stored trees", det)
+			}
+		}
+		if ref != nil && int(ref.Version) != res.Events {
+			r.Violation("[C05] real cluster: the current version is not the number of acknowledged events", det)
+		}
+		r.Validated(1)
+		r.Outcome("real cluster ok: " + cx.PathString(sc.Events))
+	})
+}
+
 func TestMain(m *testing.M) {
-	if nx.ChildMain() {
+	if nx.ChildMain() || cx.ChildMain() {
 		return
 	}
 	os.Exit(m.Run())
@@ -229,6 +332,13 @@ func TestC05(t *testing.T) {
 	r.Finish()
 }
 
+func clusterDepth(r *ev.Run) int {
+	if r.Thorough() {
+		return 6
+	}
+	return 4
+}
+
 func confDepth(r *ev.Run) int {
 	if r.Thorough() {
 		return 6
@@ -246,6 +356,7 @@ func TestC06(t *testing.T) {
 		return
 	}
 	conformance(r, confDepth(r))
+	realClusters(r, clusterDepth(r))
 	fx.BFS(r, reps, maxRep, b, depth, tags, runtime.NumCPU())
 	r.Finish()
 }
